@@ -11,6 +11,9 @@ compared with the count every entry point reports, with 0..64 trailing bytes (or
 -/
 import MinizProof.Spec.Inflate
 import MinizProof.Lemmas.CoreRefine
+import MinizProof.Lemmas.CoreExt
+import MinizProof.Lemmas.SpecFuel
+set_option maxRecDepth 100000
 namespace C06
 
 /-- `undo_bytes(l, max)`: returns the number of whole bytes given back and the new bit count. -/
@@ -72,6 +75,96 @@ theorem stream_end_consumed_exactly (r : Regs) (inp out : Array UInt8) (outPos b
     (decompress r inp out outPos budget flags).consumed = (res.bitsUsed + 7) / 8 := by
   have h := refine_raw_flat r inp out outPos budget flags maxDist res hstart hshape hflat hz hstop hpos hspec hroom
   exact ⟨h.1, h.2.2.1⟩
+
+/-! ### Whatever follows the stream does not matter
+
+One call on `a ++ b` IS the call on `a` whenever the run over `a` did not end starved
+(`Lemmas/CoreExt`, from the per-state input-extension lemmas of `Lemmas/CoreSplit`): same status,
+same counts, same buffer, same saved registers. With the refinement theorem this gives the property
+for every valid stream and every continuation; with the converse of C04 it even transfers to the
+reference decoder itself. -/
+open Model.Core in
+/-- NO MATTER WHAT FOLLOWS, raw DEFLATE: if the reference decoder accepts `a`, the call on `a ++ b`
+    — for EVERY `b` — is the call on `a`: `Done`, exactly ⌈bits/8⌉ bytes consumed. -/
+theorem trailing_bytes_do_not_matter (r : Regs) (a b out : Array UInt8) (outPos budget flags maxDist : Nat)
+    (res : Spec.Inflated) (hstart : r.state = sStart)
+    (hshape : r.rawHeader.size = 4 ∧ r.tableSizes.size = 3 ∧ r.lenCodes.size = 512)
+    (hflat : hasFlag flags fNonWrapping = true) (hz : hasFlag flags fParseZlib = false)
+    (hstop : hasFlag flags fStopOnBlockBoundary = false) (hpos : outPos ≤ out.size)
+    (hspec : Spec.inflateSpec (out.extract 0 outPos) maxDist a 0 = .accept res)
+    (hroom : outPos + res.out.size ≤ min (outPos + budget) out.size) :
+    decompress r (a ++ b) out outPos budget flags = decompress r a out outPos budget flags ∧
+    (decompress r (a ++ b) out outPos budget flags).status = stDone ∧
+    (decompress r (a ++ b) out outPos budget flags).consumed = (res.bitsUsed + 7) / 8 := by
+  have h := refine_raw_flat r a out outPos budget flags maxDist res hstart hshape hflat hz hstop hpos hspec hroom
+  have he := done_ext_same r a b out outPos budget flags h.1
+  exact ⟨he, by rw [he]; exact h.1, by rw [he]; exact h.2.2.1⟩
+
+open Model.Core in
+/-- The same for a zlib stream: exactly header + body + trailer bytes, whatever follows. -/
+theorem trailing_bytes_do_not_matter_zlib (r : Regs) (a b out : Array UInt8) (outPos budget flags maxDist : Nat)
+    (zr : Spec.ZInflated) (hstart : r.state = sStart)
+    (hshape : r.rawHeader.size = 4 ∧ r.tableSizes.size = 3 ∧ r.lenCodes.size = 512)
+    (hflat : hasFlag flags fNonWrapping = true) (hz : hasFlag flags fParseZlib = true)
+    (hstop : hasFlag flags fStopOnBlockBoundary = false) (hpos : outPos ≤ out.size)
+    (hspec : Spec.zlibSpec (out.extract 0 outPos) maxDist a true = .accept zr)
+    (hroom : outPos + zr.inner.out.size ≤ min (outPos + budget) out.size) :
+    decompress r (a ++ b) out outPos budget flags = decompress r a out outPos budget flags ∧
+    (decompress r (a ++ b) out outPos budget flags).status = stDone ∧
+    (decompress r (a ++ b) out outPos budget flags).consumed = (zr.inner.bitsUsed + 7) / 8 + 4 := by
+  obtain ⟨cmf, flg, x0, x1, x2, x3, h0, h1, hv, hi, ha, hb, hc, hd, hadl, hused⟩ := zlibSpec_inv hspec
+  have h := refine_zlib_flat r a out outPos budget flags maxDist zr.inner cmf flg x0 x1 x2 x3 hstart hshape hflat hz hstop
+    hpos h0 h1 hv hi ha hb hc hd hroom
+  have hst : (decompress r a out outPos budget flags).status = stDone := by
+    rw [h.1, if_neg]
+    intro hh
+    exact hh.2 (hadl rfl)
+  have he := done_ext_same r a b out outPos budget flags hst
+  exact ⟨he, by rw [he]; exact hst, by rw [he]; exact h.2.2.1⟩
+
+open Model.Core in
+/-- … and so the REFERENCE DECODER itself does not care what follows a stream it accepts (obtained
+    through the decoder model: forward refinement on `a`, input extension, converse on `a ++ b`):
+    it accepts `a ++ b` with the same plaintext and the same encoded length in bytes. -/
+theorem reference_decoder_ignores_trailing_bytes (pre a b : Array UInt8) (res : Spec.Inflated)
+    (h : Spec.inflateSpec pre 32768 a 0 = .accept res) :
+    ∃ res', Spec.inflateSpec pre 32768 (a ++ b) 0 = .accept res' ∧ res'.out = res.out ∧
+      (res'.bitsUsed + 7) / 8 = (res.bitsUsed + 7) / 8 := by
+  -- a flat buffer holding the history, with room for exactly the plaintext
+  have hsz : (pre ++ Array.replicate res.out.size (0 : UInt8)).size = pre.size + res.out.size := by simp
+  have hpre : (pre ++ Array.replicate res.out.size (0 : UInt8)).extract 0 pre.size = pre := by
+    apply Array.ext_getElem?
+    intro i
+    rw [Array.getElem?_extract]
+    by_cases hi : i < pre.size
+    · have : i < min pre.size (pre ++ Array.replicate res.out.size (0 : UInt8)).size - 0 := by rw [hsz]; omega
+      simp only [this, ↓reduceIte, Nat.zero_add]
+      exact Array.getElem?_append_left hi
+    · have : ¬ i < min pre.size (pre ++ Array.replicate res.out.size (0 : UInt8)).size - 0 := by rw [hsz]; omega
+      simp only [this, ↓reduceIte]
+      rw [Array.getElem?_eq_none (by omega)]
+  have hfl : hasFlag 4 fNonWrapping = true ∧ hasFlag 4 fParseZlib = false ∧ hasFlag 4 fStopOnBlockBoundary = false := by decide
+  have hroom : pre.size + res.out.size ≤ min (pre.size + res.out.size) (pre ++ Array.replicate res.out.size (0 : UInt8)).size := by
+    rw [hsz]; omega
+  have hfw := refine_raw_flat {} a (pre ++ Array.replicate res.out.size 0) pre.size res.out.size 4 32768 res rfl ⟨rfl, rfl, rfl⟩
+    hfl.1 hfl.2.1 hfl.2.2 (by rw [hsz]; omega) (by rw [hpre]; exact h) hroom
+  have he := done_ext_same {} a b (pre ++ Array.replicate res.out.size 0) pre.size res.out.size 4 hfw.1
+  have hdone : (decompress {} (a ++ b) (pre ++ Array.replicate res.out.size 0) pre.size res.out.size 4).status = stDone := by
+    rw [he]; exact hfw.1
+  rcases done_raw_flat {} (a ++ b) (pre ++ Array.replicate res.out.size 0) pre.size res.out.size 4 rfl ⟨rfl, rfl, rfl⟩
+    hfl.1 hfl.2.1 hfl.2.2 (by rw [hsz]; omega) hdone with ⟨res', hacc, hroom'⟩ | hfuel
+  · rw [hpre] at hacc
+    have hbw := refine_raw_flat {} (a ++ b) (pre ++ Array.replicate res.out.size 0) pre.size res.out.size 4 32768 res' rfl ⟨rfl, rfl, rfl⟩
+      hfl.1 hfl.2.1 hfl.2.2 (by rw [hsz]; omega) (by rw [hpre]; exact hacc) hroom'
+    rw [he] at hbw
+    have hsize : res'.out.size = res.out.size := by rw [← hbw.2.1, hfw.2.1]
+    refine ⟨res', hacc, ?_, by rw [← hbw.2.2.1, hfw.2.2.1]⟩
+    apply Array.ext_getElem?
+    intro i
+    by_cases hi : i < res.out.size
+    · rw [← hbw.2.2.2 i (by omega), ← hfw.2.2.2 i hi]
+    · rw [Array.getElem?_eq_none (by omega), Array.getElem?_eq_none (by omega)]
+  · exact absurd hfuel (Spec.inflateSpec_ne_fuel _ _ _ _)
 
 example : undoBytes 19 5 = (2, 3) := by decide
 example : logicalBits 5 19 = 21 ∧ (21 + 7) / 8 = 3 := by decide
